@@ -365,7 +365,37 @@ func (e *Engine) load(st *state, addr *Val, t types.Type) *Val {
 	}
 	if addr.Op == "index" {
 		base := addr.Args[0]
+		// an element of a local array a front part of which was filled in one piece (`io.ReadFull(buf, scratch[:n])`, then
+		// `scratch[0]` or `b := scratch[:n]; b[0]` – element addresses are kept relative to the array): the element of
+		// what that part holds, when exactly one such part is on record and the index lies inside it
+		if base.Op == "alloc" {
+			if _, whole := st.content[base.Key()]; !whole {
+				if k, isC := addr.Args[1].Int64(); isC && k >= 0 {
+					pfx := "slice(" + base.Key() + ",_,"
+					var hit *Val
+					n := 0
+					for ck, c := range st.content {
+						if strings.HasPrefix(ck, pfx) {
+							n++
+							hit = c
+						}
+					}
+					if n == 1 && hit != nil {
+						if ln, okL := affOf(mkLen(hit)).IsConst(); okL && k < ln {
+							if _, stored := st.mem[addr.Key()]; !stored {
+								return &Val{Op: "elem", Args: []*Val{hit, addr.Args[1]}, Type: t}
+							}
+						}
+					}
+				}
+			}
+		}
 		for (base.Op == "slice" && base.Args[1] == nil) || base.Op == "arrayptr" {
+			// (content recorded for a front part of an array – `io.ReadFull(buf, scratch[:n])` – is the content of
+			// that part's elements: same index, the part starts at 0)
+			if c, ok := st.content[base.Key()]; ok {
+				return &Val{Op: "elem", Args: []*Val{c, addr.Args[1]}, Type: t}
+			}
 			base = base.Args[0]
 		}
 		if c, ok := st.content[base.Key()]; ok {
@@ -702,6 +732,14 @@ func (e *Engine) contentOf(st *state, v *Val) *Val {
 		if base.Op == "alloc" && v.Args[1] == nil && v.Args[2] == nil {
 			if c, ok := st.content[base.Key()]; ok {
 				return c
+			}
+		}
+		if base.Op == "alloc" {
+			// part of a local array whose whole content is on record (filled by one read): that part of the content
+			if c, ok := st.content[base.Key()]; ok && (v.Args[1] != nil || v.Args[2] != nil) {
+				if sc := stripCT(c); sc != nil && (sc.Op == "wire" || sc.Op == "unknown") {
+					return &Val{Op: "slice", Args: []*Val{c, v.Args[1], v.Args[2], v.Args[3]}, Type: v.Type}
+				}
 			}
 		}
 		if base.Op == "alloc" { // slice of a local array: collect elements
